@@ -115,9 +115,19 @@ CO_Tree::CO_Tree(Iterator i, const dimension_type n) {
     else {
       if (top_n == 1) {
         PPL_ASSERT(root.index() == unused_index);
-        root.index() = i.index();
-        new(&(*root)) data_type(*i);
-        ++i;
+        // This is a constructor: if copying the datum throws, the
+        // destructor will not run and the tree built so far must be
+        // released here. The index is set only for constructed data.
+        // (Advancing a computing iterator may throw too.)
+        try {
+          new(&(*root)) data_type(*i);
+          root.index() = i.index();
+          ++i;
+        }
+        catch (...) {
+          destroy();
+          throw;
+        }
         --stack_first_empty;
       }
       else {
